@@ -84,6 +84,30 @@ def run_line(app, calls, line, argv=False, lists=None):
             "calls": intern(json.dumps(calls, default=str))}
 
 
+def pristine_run(line, argv, explicit_parser):
+    """executed in a forked child of the reference server (harness/props/pristine.py): raw texts, interned by the caller"""
+    app, calls = build_app(explicit_parser)
+    _INTERN.clear()
+    r = run_line(app, calls, line, argv=argv)
+    back = {v: k for k, v in _INTERN.items()}
+    return {"status": r["status"], "out": back[r["out"]], "err": back[r["err"]], "calls": back[r["calls"]]}
+
+
+_PRISTINE = {}
+
+
+def pristine(line, argv, explicit_parser):
+    """the run of `line` on a fresh application in a process that never ran anything (memoised per line and form)"""
+    from harness.props import argslib as L
+
+    key = (line, argv, explicit_parser)
+    if key not in _PRISTINE:
+        r = L.pristine_call("harness.props.c17", "pristine_run", line, argv, explicit_parser)
+        _PRISTINE[key] = r
+    r = _PRISTINE[key]
+    return {"status": r["status"], "out": intern(r["out"]), "err": intern(r["err"]), "calls": intern(r["calls"])}
+
+
 def run_history(lines, kinds, explicit_parser=False, all_argv=False):
     app, calls = build_app(explicit_parser)
     evs = []
@@ -93,7 +117,7 @@ def run_history(lines, kinds, explicit_parser=False, all_argv=False):
         shared = run_line(app, calls, line, argv=argv, lists=lists)
         fapp, fcalls = build_app(explicit_parser)
         fresh = run_line(fapp, fcalls, line, argv=argv)
-        evs.append({"kind": kind, "line": line, "shared": shared, "fresh": fresh})
+        evs.append({"kind": kind, "line": line, "shared": shared, "fresh": fresh, "pristine": pristine(line, argv, explicit_parser)})
     return evs
 
 
